@@ -444,9 +444,12 @@ class RulesMixin:
             if id(v) in memo:
                 return memo[id(v)]
             c = PDict()
+            c.oid = v.oid  # the snapshot stands for the same dict (identity comparisons)
             memo[id(v)] = c
             for k, x in v.items.items():
                 c.items[k] = self.snap(x, memo)
+            c.sym_entries = list(v.sym_entries)
+            c.base = v.base
             return c
         if isinstance(v, SymMap):
             if id(v) in memo:
@@ -761,7 +764,18 @@ class RulesMixin:
         if isinstance(v, SymAny):
             return self.fresh_any(name, v.bytes_kind)
         if isinstance(v, PDict):
-            return PDict({k: self.havoc_like(x, f"{name}.{k}") for k, x in v.items.items()})
+            from .sym import kind_of_strlike as _ks
+
+            # text entries may have been overwritten through computed keys; entries of other kinds
+            # cannot (obligation dict-store.misses.* at every such store)
+            d = PDict({k: (self.havoc_like(x, f"{name}.{k}") if (_ks(x) or isinstance(x, (int, SymInt)) and not isinstance(x, bool) and False) else x) for k, x in v.items.items()})
+            if True:
+                # unknown further text entries under keys other than the concrete ones (earlier
+                # iterations of the loop may have stored under keys computed at run time)
+                from .sym import Str as _Str
+
+                d.base = (z3.Function(ctx.fresh_name(f"{name}.has"), _Str, z3.BoolSort()), z3.Function(ctx.fresh_name(f"{name}.val"), _Str, _Str))
+            return d
         if isinstance(v, SymMsg):
             return self.make_symbolic("msg", name)
         if v is None:
@@ -1403,7 +1417,7 @@ class RulesMixin:
         ordinal = self.loop_ordinal(s, fr)
         label = f"{fr.fn_qual.split(':')[1]}.loop{ordinal}"
         is_for = isinstance(s, ast.For)
-        mod = assigned_names(s.body) | {n for n in mutated_names(s.body) if n in fr.locals}
+        mod = assigned_names(s.body) | {n for n in mutated_names(s.body) if n in fr.locals} | set(spec.get("also_modifies", []))
         target_names = assigned_names([s.target]) if is_for else set()
         heap = self.body_heap_effect(s.body)
         only_attrs = self.body_attr_effect(s.body) if heap else None
@@ -1428,6 +1442,12 @@ class RulesMixin:
         for cl in invs:
             v = self.spec_eval_loop(cl, env_for(0), pre_env, fr, proving=True)
             ctx.prove(f"{unit}.{label}.entry.{cl.name}", self.as_z3_bool(v), cl.text, fr.where(), note="loop invariant on entry")
+        from .contracts import mk_clauses as _mk0
+
+        # entry_ensures: what holds when the loop is reached (may speak about the traces so far)
+        for cl in _mk0(f"{label}.entry", spec.get("entry_ensures")):
+            v = self.spec_eval_loop(cl, env_for(0), pre_env, fr, proving=True)
+            ctx.prove(f"{unit}.{cl.name}", self.as_z3_bool(v), cl.text, fr.where(), note="where the loop is reached", props=cl.props)
         if heap and self.unit_self is not None and not getattr(self, "in_init", False):
             self.prove_unit_inv(fr, f"{label}.entry")
             self.check_guarantee(fr.where(), f"{label} entry")
@@ -1449,6 +1469,7 @@ class RulesMixin:
                     cur.items, cur.sym = new.items, new.sym  # same list object, unknown content
                 elif isinstance(cur, PDict) and isinstance(new, PDict):
                     cur.items = new.items  # same dict object, unknown values
+                    cur.sym_entries, cur.base = [], new.base
                 else:
                     fr.locals[name] = new
             else:
@@ -1483,14 +1504,17 @@ class RulesMixin:
                 from . import models_rt as _rt
 
                 _rt.advance(self, f"t@{label}")
+            if self.unit_self is not None:
+                self.segment_start = self.snapshot_env({"self": self.unit_self})
+        if heap or any(isinstance(n_, ast.Call) for st_ in s.body for n_ in ast.walk(st_)) or (tail is not None and not isinstance(tail, SymSeq)):
+            # earlier iterations may have emitted / called anything the body can: what was recorded
+            # before the loop is followed by an unknown stretch
             tr = self.traces
             for k in list(tr):
                 if k == "call_times":
                     tr[k] = list(tr[k]) + [TraceGap(label)]  # times of earlier calls stay known
                     continue
                 tr[k] = [TraceGap(label)]
-            if self.unit_self is not None:
-                self.segment_start = self.snapshot_env({"self": self.unit_self})
         i = None
         if tail is not None:
             i = ctx.fresh(f"_i@{label}", z3.IntSort())
@@ -1508,6 +1532,8 @@ class RulesMixin:
             k = ctx.choose(2, label, ["iter", "exit"])
             if k == 1:
                 ctx.assume_checked(i == n_expr, "loop exit")
+                if hasattr(tail, "on_exhausted"):
+                    tail.on_exhausted(self, fr)
                 from .contracts import mk_clauses as _mk2
 
                 for cl in _mk2(f"{label}.exit-assume", spec.get("exit_assume")):
@@ -1523,6 +1549,7 @@ class RulesMixin:
                             fr.locals[name] = MaybeUnbound(b, self.make_symbolic(local_types[name], f"{name}@{label}"))
                 return False
             ctx.assume_checked(i < n_expr, "loop iter")
+            self.iter_start_locals = self.snapshot_env({k_: v_ for k_, v_ in fr.locals.items() if not isinstance(v_, MaybeUnbound)})
             self.assign(s.target, self.tail_elem(tail, i, fr), fr)
         else:
             c = self.ev(s.test, fr)
@@ -1646,7 +1673,7 @@ class RulesMixin:
         it = self.ev(g.iter, fr)
         if isinstance(it, GenValue):
             it = it.to_list(self)
-        f2 = Frame(fr.fn_qual, fr.module, parent=fr)
+        f2 = Frame(fr.fn_qual, fr.module, parent=fr, spec=fr.spec)
         f2.line = fr.line
         conc = None
         if isinstance(it, (tuple, list)):
@@ -1745,13 +1772,16 @@ class RulesMixin:
     def closed_signature(self, elt, g, fr):
         """canonical text of a comprehension / generator element expression whose only free
         variable is the (single-name) loop target, else None"""
-        if not isinstance(g.target, ast.Name):
+        if isinstance(g.target, ast.Name):
+            tgts = {g.target.id: "_x"}
+        elif isinstance(g.target, ast.Tuple) and all(isinstance(x, ast.Name) for x in g.target.elts):
+            tgts = {x.id: f"_x{i}" for i, x in enumerate(g.target.elts)}
+        else:
             return None
-        tgt = g.target.id
         import builtins as _b
 
         for n in ast.walk(elt):
-            if isinstance(n, ast.Name) and n.id != tgt:
+            if isinstance(n, ast.Name) and n.id not in tgts:
                 if n.id in fr.locals or (fr.parent is not None and self._visible_local(n.id, fr)):
                     return None
                 if not hasattr(_b, n.id):
@@ -1759,7 +1789,7 @@ class RulesMixin:
 
         class _R(ast.NodeTransformer):
             def visit_Name(self, n):
-                return ast.copy_location(ast.Name("_x", n.ctx), n) if n.id == tgt else n
+                return ast.copy_location(ast.Name(tgts[n.id], n.ctx), n) if n.id in tgts else n
 
         import copy as _c
 
@@ -1788,7 +1818,7 @@ class RulesMixin:
         elif isinstance(it, PSet):
             conc = list(it.items)
         if conc is not None:
-            f2 = Frame(fr.fn_qual, fr.module, parent=fr)
+            f2 = Frame(fr.fn_qual, fr.module, parent=fr, spec=fr.spec)
             zs = []
             for x in conc:
                 self.assign(g.target, x, f2)
@@ -1831,7 +1861,7 @@ class RulesMixin:
             if k == 0:
                 j = ctx.fresh("_j", z3.IntSort())
                 ctx.assume(z3.And(j >= 0, j < n))
-                f2 = Frame(fr.fn_qual, fr.module, parent=fr)
+                f2 = Frame(fr.fn_qual, fr.module, parent=fr, spec=fr.spec)
                 self.assign(g.target, self.seq_elem(elem, j), f2)
                 for c in g.ifs:
                     self.ev(c, f2)
